@@ -309,6 +309,10 @@ inductive Err where
   | assertion (msg : Str)
   | undefinedQuery (name : Str)
   | syntax
+  /-- `TemplateAssertionError("Unknown uses_query_name found.")`: the argument of `ifuses` evaluated to `None` -/
+  | unknownQueryName
+  /-- `getattr(namespace, name)` with a name that is not a string: `TypeError`, not caught by `_use_query_common` -/
+  | typeError
   deriving DecidableEq, Repr
 
 /-- `JinjaAssert._do_assert(expression, …, message, caller)`; the call block has an empty body, so
@@ -398,5 +402,61 @@ def elseOf : List Seg → Str
   | ⟨.else_, _, b⟩ :: _ => b
   | ⟨.end_, _, _⟩ :: _ => []
   | _ :: rest => elseOf rest
+
+/-! ## the glue around the two extensions (`extensions.py`, `environment.py`) -/
+
+/-- `JinjaAssert.parse`: `{% assert e %}` / `{% assert e, message %}` — the message argument is optional -/
+def assertMessage (given : Option Str) : Str := given.getD "Template assertion failed.".toList
+
+/-- what a failed assertion reports: `TemplateAssertionError(message, lineno, name, filename)` with the line of the
+`assert` token and the name of the template that contains the tag (`parser.name`) -/
+structure AssertFailure where
+  msg : Str
+  lineno : Nat
+  name : Str
+  deriving DecidableEq, Repr
+
+def doAssertAt (truthy : Bool) (given : Option Str) (lineno : Nat) (name : Str) : Except AssertFailure Str :=
+  if !truthy then .error ⟨assertMessage given, lineno, name⟩ else .ok []
+
+/-- the value the argument expression of `ifuses` / `elifuses` evaluates to -/
+inductive QName where
+  | none_
+  | str (s : Str)
+  | other
+  deriving DecidableEq, Repr
+
+/-- `_use_query` / `_use_nquery` on an evaluated argument: `_use_query_common` raises BEFORE `_use_nquery` negates -/
+def useQueryV (q : Str → Option Bool) (negate : Bool) : QName → Except Err Bool
+  | .none_ => .error .unknownQueryName
+  | .other => .error .typeError
+  | .str s => useQuery q negate s
+
+/-- `CodeGenEnvironmentBuilder.create()` → `CodeGenEnvironment.__init__` → `Environment(...)`: what the lexer is built
+from.  Only `trim_blocks` and `lstrip_blocks` can be set (`set_trim_blocks`, `set_lstrip_blocks`, both default False);
+delimiters and line prefixes are never passed (Jinja defaults), `keep_trailing_newline=True`. -/
+structure BuilderState where
+  trim : Bool := false
+  lstrip : Bool := false
+  deriving DecidableEq, Repr
+
+structure LexerSettings where
+  blockStart : Str
+  blockEnd : Str
+  variableStart : Str
+  variableEnd : Str
+  commentStart : Str
+  commentEnd : Str
+  lineStatementPrefix : Option Str
+  lineCommentPrefix : Option Str
+  trimBlocks : Bool
+  lstripBlocks : Bool
+  newlineSequence : Str
+  keepTrailingNewline : Bool
+  deriving DecidableEq, Repr
+
+def builderSettings (b : BuilderState) : LexerSettings :=
+  ⟨"{%".toList, "%}".toList, "{{".toList, "}}".toList, "{#".toList, "#}".toList, none, none, b.trim, b.lstrip,
+   "\n".toList, true⟩
 
 end NunavutVerif.Lexer
